@@ -13,7 +13,7 @@ CHECKS: dict[str, dict[str, str]] = {
     'C12': dict(
         technique='TLA+ reference of the API retry loop, throttling and re-authentication (Infra.tla); the laws checked by TLC over all fault '
                   'words; the real api.request / throttled processing / Vault run in virtual time, records judged by TLC',
-        text='RetryPlan gives the exact instants of all attempts for a fault word (connection errors, timeouts, 5xx, 403, 429 with Retry-After, '
+        text='[+ timers whose own PATCH exhausts the retries: known finding F17] RetryPlan gives the exact instants of all attempts for a fault word (connection errors, timeouts, 5xx, 403, 429 with Retry-After, '
              'other 4xx) under a backoff list and enforce_retry_after; TLC checks its laws for 37 448 cases and then judges the real '
              'api.request on ~900 (quick) / all (thorough) words: attempt instants must be equal. Throttling: per-object delays grow per '
              'consecutive error, reset by success, other objects are processed at their arrival instants, the operator stays alive and '
@@ -24,7 +24,7 @@ CHECKS: dict[str, dict[str, str]] = {
     'C19': dict(
         technique='TLA+ model of the list-then-watch continuity logic (Watching.tla) checked exhaustively with TLC; recorded executions of '
                   'the real operator against the stateful fake API checked by TLC against a TLA+ property automaton (WatchMonitor.tla)',
-        text='Watching.tla: a server change log, a client that lists, watches from a remembered version and survives EOF, connection errors, '
+        text='[+ Orchestration.tla: observers vs orchestrator under the `revised` condition, Coverage for any number of revisions over 4 pairs, negative model loses a wake-up; CRDs modified at run time] Watching.tla: a server change log, a client that lists, watches from a remembered version and survives EOF, connection errors, '
              'timeouts, 410 after compaction, bookmarks and an unknown ERROR; NoSkip / SinceNeverAhead / AllReach hold in every reachable '
              'state for 4 changes x 3 faults (two configurations), and a negative configuration (resume version ahead of the stream) must '
              'fail. The real operator then runs random object histories with stream faults at random positions, and namespace/CRD churn under '
@@ -37,7 +37,7 @@ CHECKS: dict[str, dict[str, str]] = {
         technique='explicit TLA+ model of peering (Peering.tla: keep-alive, evaluation of queued snapshots, clean, deadline sleep, graceful '
                   'exit, kill, foreign writes) checked exhaustively with TLC incl. liveness; executions of 1-3 real operators sharing a peering '
                   'object in virtual time validated by TLC against the specification (Trace_Peering.tla, with time urgency)',
-        text='TLC: RenewsInTime and WithdrawsOnExit in every state, ExactlyTop / EventuallyStable and CleansDead under fairness, for every '
+        text='[+ schedules drawn by TLC (-simulate on Sim_Peering) replayed into the real operators] TLC: RenewsInTime and WithdrawsOnExit in every state, ExactlyTop / EventuallyStable and CleansDead under fairness, for every '
              'order of starts, exits, kills and foreign writes of 2-3 operators with stale snapshots queued; negative and witness '
              'configurations (period = lifetime; families F26, F27). Real operators: every PATCH of the peering object must be the write '
              'the specification predicts at that instant (content and time), every evaluation must split the peers into dead / higher / '
@@ -78,7 +78,7 @@ CHECKS: dict[str, dict[str, str]] = {
     'C17': dict(
         technique='TLA+ reference state machine of indexing (Indexing.tla); the recorded steps of the real operator are replayed by TLC, which '
                   'predicts the handlers that run and the full contents of every index after each step; gate scenarios judged by the same module',
-        text='Random histories (adds, edits, label toggles, deletes over 3 objects with colliding keys, 2 indices, results: mapping / scalar / '
+        text='[+ Gate.tla: readiness gate x worker limit, handlers only after the initial index, startup terminates; witness of F16] Random histories (adds, edits, label toggles, deletes over 3 objects with colliding keys, 2 indices, results: mapping / scalar / '
              'None / temporary / permanent / arbitrary error) run on the real operator; an on.event handler dumps the indices through the '
              'kwarg views after every event; TLC replays each trace through Indexing.tla and requires equality of the handler sets and of all '
              'index contents. The readiness gate is exercised with delayed listings of two indexed kinds and objects arriving meanwhile.',
@@ -100,7 +100,7 @@ CHECKS: dict[str, dict[str, str]] = {
     'C10': dict(
         technique='explicit TLA+ transcription of the timer loop (Timers.tla) checked exhaustively with TLC; start/end instants of the real '
                   'timer function in virtual time validated by TLC against the specification (Trace_Timers.tla)',
-        text='FirstRun, NoOverlap, IdleLaw, AfterOk, AfterOkSharp, AfterTemp, AfterExc and PermanentEndsIt hold in every state of the model '
+        text='[+ no change-detecting handler at all: family F6 as a named deviation of the trace specification] FirstRun, NoOverlap, IdleLaw, AfterOk, AfterOkSharp, AfterTemp, AfterExc and PermanentEndsIt hold in every state of the model '
              '(7 configurations x durations x outcome scripts x change instants, ~3 million states). The real operator runs one timer per '
              'scenario under a virtual clock; since the specification is deterministic given the environment\'s choices, a trace is accepted '
              'only if every start instant is exactly the one the laws give. The check showed F2 (fixed: 9a87981) and F1 (fixed: b6c0de9).',
@@ -149,7 +149,7 @@ CHECKS: dict[str, dict[str, str]] = {
     'C02': dict(
         technique='explicit TLA+ model of the closed loop of one object (Handling.tla) checked exhaustively with TLC; traces of the real '
                   'kopf.operator() in the world simulator validated by TLC against the specification (Trace_Handling.tla)',
-        text='[+ OnceMonitor.tla: the statement as a property automaton over runs with a parent handler, two scripted sub-handlers, a sibling, mid-cycle edits (resume superseded by update) and graceful restarts] recorded progress governs invocation: InvokeGoverned (record in the processed view: not finished, retry = recorded attempts, delay elapsed), CloseExactlyWhenDone, AtMostOnce with all doors closed; the negative configuration shows a kill re-opens the door' ' -- checked by TLC on Handling.tla for every interleaving of the bounded configurations, and on every state of '
+        text='[+ histories and handler outcomes drawn by TLC (-simulate on Sim_Handling) replayed into the real operator] [+ OnceMonitor.tla: the statement as a property automaton over runs with a parent handler, two scripted sub-handlers, a sibling, mid-cycle edits (resume superseded by update) and graceful restarts] recorded progress governs invocation: InvokeGoverned (record in the processed view: not finished, retry = recorded attempts, delay elapsed), CloseExactlyWhenDone, AtMostOnce with all doors closed; the negative configuration shows a kill re-opens the door' ' -- checked by TLC on Handling.tla for every interleaving of the bounded configurations, and on every state of '
              'the behaviour that explains each recorded trace of the real operator (seeded random scenarios of profile progress + errors; every '
              'PATCH is compared with the specification\'s server object field by field, virtual time is bound by urgency).',
         note='one object, one operator at a time; handlers are coroutines with scripted outcomes; sub-handlers, handler timeouts and '
@@ -158,7 +158,7 @@ CHECKS: dict[str, dict[str, str]] = {
     'C03': dict(
         technique='explicit TLA+ model of the closed loop of one object (Handling.tla) checked exhaustively with TLC; traces of the real '
                   'kopf.operator() in the world simulator validated by TLC against the specification (Trace_Handling.tla)',
-        text='TerminalConverged on configurations without doors / with kills, stops, restarts, re-listings; Termination under weak fairness; witness configurations for the known families F8, F20, F21, F22; histories run to quiescence: final state Converged (or excused by a known family) and no PATCH in the tail window' ' -- checked by TLC on Handling.tla for every interleaving of the bounded configurations, and on every state of '
+        text='[+ TLC-drawn histories (Sim_Handling); histories of the consistency and finalizer profiles; user transformations carried forward] TerminalConverged on configurations without doors / with kills, stops, restarts, re-listings; Termination under weak fairness; witness configurations for the known families F8, F20, F21, F22; histories run to quiescence: final state Converged (or excused by a known family) and no PATCH in the tail window' ' -- checked by TLC on Handling.tla for every interleaving of the bounded configurations, and on every state of '
              'the behaviour that explains each recorded trace of the real operator (seeded random scenarios of profile converge; every '
              'PATCH is compared with the specification\'s server object field by field, virtual time is bound by urgency).',
         note='one object, one operator at a time; handlers are coroutines with scripted outcomes; sub-handlers, handler timeouts and '
